@@ -15,6 +15,7 @@ import (
 	"net"
 	"os"
 	"path/filepath"
+	"strings"
 	"sync/atomic"
 	"time"
 )
@@ -35,7 +36,7 @@ func (p *Pair) KeyPEM() []byte {
 
 var serial atomic.Int64
 
-func mint(cn string, parent *Pair, isCA bool, notBefore, notAfter time.Time, server bool) *Pair {
+func mint(cn string, parent *Pair, isCA bool, notBefore, notAfter time.Time, server bool, sans ...string) *Pair {
 	key, _ := ecdsa.GenerateKey(elliptic.P256(), rand.Reader)
 	tmpl := &x509.Certificate{
 		SerialNumber:          big.NewInt(1000 + serial.Add(1)),
@@ -55,6 +56,7 @@ func mint(cn string, parent *Pair, isCA bool, notBefore, notAfter time.Time, ser
 		tmpl.IPAddresses = []net.IP{net.ParseIP("127.0.0.1")}
 		tmpl.DNSNames = []string{"localhost"}
 	}
+	tmpl.DNSNames = append(tmpl.DNSNames, sans...)
 	signer, signerKey := tmpl, key
 	if parent != nil {
 		signer, signerKey = parent.Cert, parent.Key
@@ -109,12 +111,13 @@ const (
 	CredExpired      = "expired"
 	CredJustExpired  = "expired-two-seconds-ago"
 	CredNotYetValid  = "valid-from-in-30-seconds"
+	CredWrongCNSAN   = "right-ca-wrong-cn-name-only-as-dns-san"
 	CredWrongCN      = "right-ca-wrong-cn"
 	CredCNOnIntermed = "right-ca-cn-only-on-intermediate"
 	CredRight        = "right-ca-right-cn"
 )
 
-var AllCreds = []string{CredNone, CredSelfSigned, CredForeignCA, CredExpired, CredJustExpired, CredNotYetValid, CredWrongCN, CredCNOnIntermed, CredRight}
+var AllCreds = []string{CredNone, CredSelfSigned, CredForeignCA, CredExpired, CredJustExpired, CredNotYetValid, CredWrongCN, CredWrongCNSAN, CredCNOnIntermed, CredRight}
 
 // ClientConfig builds the tls.Config of a client presenting the credential.
 func (p *PKI) ClientConfig(kind string) *tls.Config {
@@ -144,6 +147,10 @@ func (p *PKI) ClientConfig(kind string) *tls.Config {
 		cfg.Certificates = []tls.Certificate{chain(mint(p.CommonName, p.CA, false, now.Add(30*time.Second), now.Add(time.Hour), false))}
 	case CredWrongCN:
 		cfg.Certificates = []tls.Certificate{chain(mint("somebody else", p.CA, false, now.Add(-time.Hour), now.Add(time.Hour), false))}
+	case CredWrongCNSAN:
+		// the rule is about the COMMON name: the configured name as a DNS subject alternative name (also in upper
+		// case, also covered by a wildcard) of a certificate with another common name does not satisfy it
+		cfg.Certificates = []tls.Certificate{chain(mint("somebody else", p.CA, false, now.Add(-time.Hour), now.Add(time.Hour), false, p.CommonName, strings.ToUpper(p.CommonName), "*."+p.CommonName))}
 	case CredCNOnIntermed:
 		leaf := mint("leaf without the name", p.Intermediate, false, now.Add(-time.Hour), now.Add(time.Hour), false)
 		cfg.Certificates = []tls.Certificate{chain(leaf, p.Intermediate)}
@@ -157,7 +164,7 @@ func (p *PKI) ClientConfig(kind string) *tls.Config {
 // server that requires a certificate chaining to the CA.
 func ChainsToCA(kind string) bool {
 	switch kind {
-	case CredWrongCN, CredCNOnIntermed, CredRight:
+	case CredWrongCN, CredWrongCNSAN, CredCNOnIntermed, CredRight:
 		return true
 	}
 	return false
